@@ -29,20 +29,20 @@ func (s Step) String() string { return [...]string{"handshake", "generate", "goo
 type ActKind int
 
 const (
-	ActOK               ActKind = iota // well-formed reply
-	ActOKExtra                         // well-formed reply with unknown extra fields / features, no libraryVersion
-	ActWrongName                       // handshake: another plugin name
-	ActWrongVersion                    // handshake: apiVersion+1
-	ActMissingRequired                 // reply body lacks a required field
-	ActEmptyResult                     // result struct without the success field
-	ActException                       // Exception envelope (TApplicationException)
-	ActUnknownEnvType                  // envelope type 7
-	ActGarbageFramed                   // well-framed random payload
-	ActGarbageRaw                      // unframed random bytes, then exit
-	ActTruncate                        // first k bytes of the reply frame, then exit
-	ActOversized                       // length prefix far beyond the data, then exit
-	ActExitNoReply                     // read the request, exit without replying
-	ActOKThenExit                      // reply, then exit before reading the next request
+	ActOK              ActKind = iota // well-formed reply
+	ActOKExtra                        // well-formed reply with unknown extra fields / features, no libraryVersion
+	ActWrongName                      // handshake: another plugin name
+	ActWrongVersion                   // handshake: apiVersion+1
+	ActMissingRequired                // reply body lacks a required field
+	ActEmptyResult                    // result struct without the success field
+	ActException                      // Exception envelope (TApplicationException)
+	ActUnknownEnvType                 // envelope type 7
+	ActGarbageFramed                  // well-framed random payload
+	ActGarbageRaw                     // unframed random bytes, then exit
+	ActTruncate                       // first k bytes of the reply frame, then exit
+	ActOversized                      // length prefix far beyond the data, then exit
+	ActExitNoReply                    // read the request, exit without replying
+	ActOKThenExit                     // reply, then exit before reading the next request
 	nActs
 )
 
